@@ -26,6 +26,7 @@ const c19Rule = "case = file-backed segment (small / block families, built or me
 type rop struct {
 	reuse  bool // postings: pass the goroutine's previous postings list / iterator as prealloc
 	early  bool // postings: stop after the first posting (leaves the iterator half-consumed for a later reuse)
+	adv    int  // postings: >0: after a posting numbered n the walk continues with Advance(n+1+adv) instead of Next (skips postings, leaving their frequencies and locations unread)
 	kind   int
 	field  string
 	term   string
@@ -39,8 +40,8 @@ func (o rop) String() string {
 	case 0:
 		return fmt.Sprintf("dict(%q)", o.field)
 	case 1:
-		if o.reuse || o.early {
-			return fmt.Sprintf("postings(%q,%q,reuse=%v,stopEarly=%v)", o.field, o.term, o.reuse, o.early)
+		if o.reuse || o.early || o.adv > 0 {
+			return fmt.Sprintf("postings(%q,%q,reuse=%v,stopEarly=%v,advanceSkip=%d)", o.field, o.term, o.reuse, o.early, o.adv)
 		}
 		return fmt.Sprintf("postings(%q,%q)", o.field, o.term)
 	case 2:
@@ -67,6 +68,19 @@ func (*oneDocStats) TotalDocumentCount() uint64    { return 1 }
 func (*oneDocStats) DocumentCount() uint64         { return 1 }
 func (*oneDocStats) SumTotalTermFrequency() uint64 { return 1 }
 func (*oneDocStats) Merge(segment.CollectionStats) {}
+
+// retriedErr is the error of a postings walk that saw an error and kept
+// calling: it carries the postings the iterator returned AFTER the error (for
+// the report only: what an iterator delivers after it reported an error is
+// not constrained by the property, only that it returns and does not panic).
+type retriedErr struct {
+	first error
+	after []XPosting
+}
+
+func (e *retriedErr) Error() string {
+	return fmt.Sprintf("%v (postings returned by later calls on the same iterator: %v)", e.first, e.after)
+}
 
 type ropEnv struct {
 	seg   segment.Segment
@@ -119,10 +133,17 @@ func (o rop) run(env *ropEnv) (res string, err error) {
 			if c := it.Count(); c != pl.Count() {
 				return fmt.Errorf("iterator Count %d != list Count %d", c, pl.Count())
 			}
-			var ps []XPosting
+			var ps, after []XPosting
 			var firstErr error
+			last := int64(-1)
 			for n := 0; n < 1<<22; n++ {
-				p, err := it.Next()
+				var p segment.Posting
+				var err error
+				if o.adv > 0 && last >= 0 {
+					p, err = it.Advance(uint64(last) + 1 + uint64(o.adv))
+				} else {
+					p, err = it.Next()
+				}
 				if err != nil {
 					if firstErr == nil {
 						firstErr = err
@@ -137,15 +158,19 @@ func (o rop) run(env *ropEnv) (res string, err error) {
 				if p == nil {
 					break
 				}
+				x := XPosting{Doc: p.Number(), Freq: p.Frequency(), Norm: float32(p.Norm()), Locs: copyLocs(p.Locations())}
+				last = int64(x.Doc)
 				if firstErr == nil {
-					ps = append(ps, XPosting{Doc: p.Number(), Freq: p.Frequency(), Norm: float32(p.Norm()), Locs: copyLocs(p.Locations())})
+					ps = append(ps, x)
+				} else {
+					after = append(after, x)
 				}
 				if o.early && firstErr == nil {
 					break
 				}
 			}
 			if firstErr != nil {
-				return firstErr
+				return &retriedErr{firstErr, after}
 			}
 			if len(ps) > 0 || pl.Count() > 0 {
 				fmt.Fprintf(&sb, "count=%d %v", pl.Count(), ps)
@@ -369,8 +394,17 @@ func genRops(t *rapid.T, c *SegCase) []rop {
 		case 1:
 			o.reuse = rapid.Bool().Draw(t, "reuse")
 			o.early = rapid.IntRange(0, 3).Draw(t, "stopEarly") == 0
+			o.adv = rapid.SampledFrom([]int{0, 0, 1, 2}).Draw(t, "advanceSkip")
 			if len(present) > 0 && rapid.IntRange(0, 5).Draw(t, "presentTerm") > 0 {
 				p := present[rapid.IntRange(0, len(present)-1).Draw(t, "pt")]
+				if rapid.Bool().Draw(t, "longestList") {
+					// the term with the most postings: walks that cross chunk boundaries
+					for _, q := range present {
+						if len(c.Exp.Post[q.f][q.t]) > len(c.Exp.Post[p.f][p.t]) {
+							p = q
+						}
+					}
+				}
 				o.field, o.term = p.f, p.t
 			} else {
 				o.field, o.term = pickField("pfield"), rapid.SampledFrom(TermVocab).Draw(t, "pterm")
@@ -414,6 +448,19 @@ func genRops(t *rapid.T, c *SegCase) []rop {
 		at := rapid.IntRange(0, len(ops)).Draw(t, "pairAt")
 		pair := []rop{{kind: 1, field: a.f, term: a.t, early: true}, {kind: 1, field: b.f, term: b.t, reuse: true}}
 		ops = append(ops[:at:at], append(pair, ops[at:]...)...)
+	}
+	// with some probability: a walk over the longest posting list that skips postings with Advance
+	// (the skipped postings' frequencies and locations stay unread in the chunk readers)
+	if len(present) > 0 && rapid.Bool().Draw(t, "skipWalk") {
+		p := present[0]
+		for _, q := range present {
+			if len(c.Exp.Post[q.f][q.t]) > len(c.Exp.Post[p.f][p.t]) {
+				p = q
+			}
+		}
+		at := rapid.IntRange(0, len(ops)).Draw(t, "skipWalkAt")
+		walk := rop{kind: 1, field: p.f, term: p.t, adv: rapid.IntRange(1, 3).Draw(t, "skipWalkAdv"), reuse: rapid.Bool().Draw(t, "skipWalkReuse")}
+		ops = append(ops[:at:at], append([]rop{walk}, ops[at:]...)...)
 	}
 	// segments with several 128-document stored blocks: visit one block, another one, and that one again
 	if c.Exp.N > 128 && rapid.IntRange(0, 1).Draw(t, "storedTriple") == 0 {
@@ -653,3 +700,9 @@ func TestC19Blocks(t *testing.T) {
 }
 
 var _ = os.Remove
+
+func TestC19Mid(t *testing.T) {
+	st := NewStats("C19Mid", c19Rule)
+	defer st.Flush()
+	rapid.Check(t, c19Prop(st, FamMid))
+}
